@@ -381,7 +381,7 @@ def _oracle_fails(P, c, io):
     return res
 
 
-def evaluate(P, cases, exes, want_model=True, budget_s=600, stop_after=40, chunk=1000):
+def evaluate(P, cases, exes, want_model=True, budget_s=600, stop_after=40, chunk=1000, known_sigs=()):
     """run cases on implementation and model, chunk by chunk.  Stops early (remaining cases stay None = not
     evaluated) once `stop_after` oracle failures are in hand or the wall-clock budget is used up: a broken tree must
     not turn a 1-minute check into hours."""
@@ -406,8 +406,11 @@ def evaluate(P, cases, exes, want_model=True, budget_s=600, stop_after=40, chunk
                                  timeout=max(60, 0.2 * len(part)))
             for i, o in zip(part, outs):
                 impl[i] = o
-                if _oracle_fails(P, cases[i], o) is not None:
-                    nfail += 1
+                rf = _oracle_fails(P, cases[i], o)
+                if rf is not None:
+                    sg = P.signature(cases[i], o, rf[0]) if hasattr(P, 'signature') else rf[0]
+                    if sg not in known_sigs:      # listed findings must not cut the run short
+                        nfail += 1
             for c in cr:
                 if c['index'] is not None:
                     c['case_index'] = part[c['index']]
@@ -527,7 +530,8 @@ def _run_cases(P, prop_id, tier, seed, rng, t0, broken, notes, axioms, driver_ok
                             cases.append(Case(body, hn, ('corpus', fn), 'corpus'))
         cases.extend(P.generate(rng, tier))
     cases = [c for c in cases if c.harness in exes]
-    impl, model, crashes, model_crashes = evaluate(P, cases, exes, want_model=driver_ok, budget_s=(420 if tier == 'quick' else 5400))
+    impl, model, crashes, model_crashes = evaluate(P, cases, exes, want_model=driver_ok, budget_s=(420 if tier == 'quick' else 5400),
+                                                   known_sigs={k['sig'] for k in load_known(prop_id)})
     not_evaluated = sum(1 for o in impl if o is None)
     if not_evaluated:
         notes.append(f'{not_evaluated} generated cases were not evaluated (early stop after failures / time budget)')
